@@ -2,6 +2,8 @@ import Props.C18
 import Props.C10
 import SdxProofs.SubsFrom
 import Props.C11
+import SdxProofs.CellOrigin
+import SdxModel.Sample
 set_option linter.unusedSectionVars false
 /-!
 # C01 — Suppression floor: nothing is released from fewer than `low_threshold` entities
@@ -326,5 +328,121 @@ theorem C01_node_values_inside (E : Env α) (c : FCtx α) (rr : List (Ival α)) 
   · exact (facts.2 j hj).1 _ (List.mem_map.mpr ⟨r, hin, rfl⟩)
   · have := facts.1 r hin j hj hroot
     exact ⟨this.1, this.2.1⟩
+
+/-! ## Down to the cells of `sample()` (one cluster) -/
+
+/-- the convertor `materialize_tree` uses for a string column: the fitted value map with the safe values analysed from the column's own tree -/
+theorem analyzeConvertors_string (E : Env α) (F : Forest α) (convs : List (Conv α)) (j : Nat) (vm : List String) (safe : List Nat)
+    (h : (analyzeConvertors E F convs).getD j .bool = .string vm safe) :
+    (∃ t, F.tree? E 8 [j] = some t ∧ safe = analyzeTree E F.ctx 100000 t) ∨ safe = [] := by
+  unfold analyzeConvertors at h
+  rw [List.getD_eq_getElem?_getD, List.getElem?_map] at h
+  cases hz : (List.zip (List.range convs.length) convs)[j]? with
+  | none => rw [hz] at h; simp at h
+  | some p =>
+    rw [hz] at h
+    obtain ⟨k, cv⟩ := p
+    have hk : k = j := by
+      have := List.getElem?_zip_eq_some.mp hz
+      have h1 := this.1
+      rw [List.getElem?_range (by
+        by_contra hcon
+        rw [List.getElem?_eq_none (by simpa using hcon)] at h1
+        cases h1)] at h1
+      exact (Option.some.inj h1).symm
+    subst hk
+    simp only [Option.map_some, Option.getD_some] at h
+    cases cv with
+    | string vm' s0 =>
+      simp only at h
+      split at h
+      · rename_i t ht
+        simp only [Conv.string.injEq] at h
+        exact Or.inl ⟨t, ht, h.2.symm⟩
+      · simp only [Conv.string.injEq] at h
+        exact Or.inr h.2.symm
+    | bool => simp at h
+    | real a b c => simp at h
+    | int a b => simp at h
+    | timestamp a b => simp at h
+
+/-- **C01 for the strings of one cluster, end to end in the model.**  Whatever `materialize_tree` returns for any column combination of a
+forest — any data, ids, salt, parameters, RNG streams —, a string cell in a string column is
+* a mask `prefix*index`, or
+* the string coded by the single value `x` of a range `[x, x]` that is the released range, *for that very column*, of a node of a forest tree
+  which is a branch or a filter-passing leaf — a node that holds at least `low_threshold` distinct entities per id column
+  (`C01_node_backed_generic` / `_unique`) and whose non-folded rows have their value inside `[x, x]` (`C01_node_values_inside`), or
+* a string whose code is marked safe, i.e. is the single value of a filter-passing single-point leaf of the column's own tree
+  (`C01_safe_values_backed`, and again `C01_node_backed_*` for that leaf).
+Known finding F12 lives in the second clause: folded outliers count towards the edge leaf. -/
+theorem C01_sample_strings (E : Env α) (inp : ForestIn α) (F : Forest α) (hinit : Forest.init E inp = .ok F)
+    (hn : 0 < inp.raw.size) (hlt : 0 ≤ F.ctx.ap.supp.lt) (convs : List (Conv α)) (comb : List Nat) (hk : 1 ≤ comb.length)
+    (hstream : List Nat) (mstream : List (Draw α)) (rows : List (List (Cell α × α))) (drawn left : Nat)
+    (h : materializeTree E F convs comb hstream mstream = .ok (rows, drawn, left)) :
+    ∀ row ∈ rows, ∀ (pos : Nat) (vm : List String) (safe : List Nat) (str : String) (f : α), pos < comb.length →
+      (analyzeConvertors E F convs).getD (comb.getD pos 0) .bool = .string vm safe → row[pos]? = some (.str str, f) →
+      (∃ pre v, str = pre ++ "*" ++ toString (v : Nat)) ∨
+      (∃ m j rr out t' x, Releasable E F.ctx m ∧ Node.Sub m t' ∧ TInvO E F.ctx rr out t' ∧ j < m.data.comb.length ∧
+        m.data.comb.getD j 0 = comb.getD pos 0 ∧ m.bucketIntervals.getD j default = ⟨x, x⟩ ∧
+        vm[(ScalarOps.trunc x : Int).toNat]? = some str) ∨
+      (∃ t1 leaf, F.tree? E 8 [comb.getD pos 0] = some t1 ∧ leaf ∈ t1.leaves 100000 ∧ leaf.isSing = true ∧
+        leaf.overThreshold E F.ctx F.ctx.ap.supp.lt = true ∧
+        vm[(ScalarOps.trunc ((leaf.data.actual.getD 0 default).lo) : Int).toNat]? = some str) := by
+  unfold materializeTree at h
+  split at h
+  · cases h
+  · rename_i t ht
+    split at h
+    · cases h
+    · rename_i bs drawn' hh
+      simp only at h
+      split at h
+      · cases h
+      · rename_i rows' rest hm
+        simp only [Except.ok.injEq, Prod.mk.injEq] at h
+        obtain ⟨rfl, _, _⟩ := h
+        intro row hrow pos vm safe str f hpos hconv hcell
+        obtain ⟨b, hb, hfor⟩ := microdata_cells E _ _ bs mstream rest rows' hm row hrow
+        obtain ⟨hlen, hranges⟩ := C01_bucket_ranges_in_forest E inp F hinit hn hlt 8 comb hk t ht hstream bs drawn' hh b hb
+        -- the cell at `pos` comes from the bucket's range at `pos` and the convertor of column `comb[pos]`
+        have hget := List.forall₂_iff_get.mp hfor
+        have hposrow : pos < row.length := by
+          by_contra hcon
+          rw [List.getElem?_eq_none (by simpa using hcon)] at hcell
+          cases hcell
+        have hposzip : pos < (List.zip b.ivs (List.zip (comb.map fun j => (analyzeConvertors E F convs).getD j Conv.bool)
+            (comb.map fun j => F.nullMaps.getD j (ofInt 0)))).length := by rw [hget.1]; exact hposrow
+        have hsrc := hget.2 pos hposzip hposrow
+        simp only [List.get_eq_getElem] at hsrc
+        have hrowpos : row[pos] = (.str str, f) := by
+          rw [List.getElem?_eq_getElem hposrow] at hcell
+          exact Option.some.inj hcell
+        rw [hrowpos] at hsrc
+        obtain ⟨s, s', hrun⟩ := hsrc
+        simp only [List.getElem_zip, List.getElem_map] at hrun
+        have hcv : (analyzeConvertors E F convs).getD comb[pos] Conv.bool = .string vm safe := by
+          have : comb.getD pos 0 = comb[pos] := by simp [List.getD_eq_getElem?_getD, hpos]
+          rw [← this]; exact hconv
+        rw [hcv] at hrun
+        rcases string_cell_origin E vm safe _ _ s s' str f hrun with ⟨hsing, h0, hvm⟩ | ⟨v, hv, hvm⟩ | hmask
+        · -- a single-point range: the released range of a releasable node for this column
+          right; left
+          have hposb : pos < b.ivs.length := by rw [hlen]; exact hpos
+          obtain ⟨m, j, rr, out, t', hrel, hsub, hT, hj, hiv, hcol⟩ := hranges pos hposb
+          have hb_eq : b.ivs[pos] = b.ivs.getD pos default := by simp [List.getD_eq_getElem?_getD, hposb]
+          have hx : b.ivs[pos] = ⟨b.ivs[pos].lo, b.ivs[pos].lo⟩ := by
+            have : b.ivs[pos].lo = b.ivs[pos].hi := by simpa [Ival.isSing] using hsing
+            cases hiv' : b.ivs[pos] with
+            | mk lo hi => rw [hiv'] at this; simp only at this; subst this; rfl
+          refine ⟨m, j, rr, out, t', b.ivs[pos].lo, hrel, hsub, hT, hj, hcol, ?_, hvm⟩
+          rw [← hiv, ← hb_eq]; exact hx
+        · -- a safe index
+          right; right
+          rcases analyzeConvertors_string E F convs _ vm safe hconv with ⟨t1, ht1, hsafe⟩ | hnil
+          · rw [hsafe] at hv
+            obtain ⟨leaf, hl, h1, h2, h3⟩ := C01_safe_values_backed E F.ctx 100000 t1 v hv
+            exact ⟨t1, leaf, ht1, hl, h1, h2, by rw [← h3]; exact hvm⟩
+          · rw [hnil] at hv; simp at hv
+        · exact Or.inl hmask
 
 end
